@@ -1,12 +1,21 @@
 (* C09 — Bounding boxes and convex hulls are exact for any hierarchy.
    Theorem-only file: every proof is `exact <lemma>`; Print Assumptions under each.
-   Model: BBox.v (exact rationals).  Vocabulary (BBoxProofs.v): is_bbox S b = "b is the smallest axis-aligned
-   box containing S" (Inverted iff S = []); hull_ok = the contract of the hull routine with explicit convex
-   coefficient lists; hull_sem H S = "H ⊆ S and every half-plane containing H contains S". *)
+   Model: BBox.v (exact rationals), mirroring /repo AFTER the fixes cd7171e (collinear fallback of convex_hull)
+   and d7329ad (Reference::convex_hull uses every offset of an Explicit repetition).
+   Vocabulary (BBoxProofs.v): is_bbox S b = "b is the smallest axis-aligned box containing S" (Inverted iff S = []);
+   hull_ok = the contract of qhull with explicit convex coefficient lists; qhull_ok hull = hull_ok on the inputs
+   qhull is actually given (>= 4 points, not one vertical line, not collinear); hull_sem H S = "H ⊆ S and every
+   half-plane containing H contains S"; family_ok U = cells closed under "child of", unique names, C11 facts
+   (rep_ok) on every repetition, quarter flag => cos*sin == 0, and for reference repetitions that are NOT
+   Explicit: extrema cover the offsets (ref_wf_other / parallelogram_cover); nothing more for Explicit ones. *)
 From Coq Require Import QArith List.
 Import ListNotations.
 Require Import Base BBox BBoxProofs.
 Local Open Scope Q_scope.
+
+Theorem bbox_is_smallest : forall S, is_bbox S (bbox S).
+Proof. exact bbox_is_bbox. Qed.
+Print Assumptions bbox_is_smallest.
 
 (* Polygon::bounding_box = smallest box of all copies (repetition enters as get_offsets / get_extrema with the
    C11 facts: extrema ⊆ offsets, same box, the origin is an offset) *)
@@ -26,10 +35,6 @@ Theorem empty_inverted :
 Proof. exact empty_inverted_lemma. Qed.
 Print Assumptions empty_inverted.
 
-Theorem bbox_is_smallest : forall S, is_bbox S (bbox S).
-Proof. exact bbox_is_bbox. Qed.
-Print Assumptions bbox_is_smallest.
-
 (* quarter-turn branch of Reference::bounding_box *)
 Theorem ref_bbox_quarter_turn : forall pl off S B, pl_ca pl * pl_sa pl == 0 -> B = bbox S ->
   box_eq (bbox (map (xform pl off) (corners B))) (bbox (map (xform pl off) S)).
@@ -47,6 +52,13 @@ Theorem ref_bbox_corners_safe : forall S B T, is_bbox S B -> affine T -> forall 
 Proof. exact ref_bbox_corners_safe_lemma. Qed.
 Print Assumptions ref_bbox_corners_safe.
 
+(* two opposite corners would do in the quarter-turn branch (an equivalent variant of the code) *)
+Theorem two_corners_suffice : forall pl off S x0 y0 x1 y1, pl_ca pl * pl_sa pl == 0 ->
+  is_bbox S (Box x0 y0 x1 y1) ->
+  box_eq (bbox (map (xform pl off) [(x0, y0); (x1, y1)])) (bbox (map (xform pl off) (corners (Box x0 y0 x1 y1)))).
+Proof. exact two_corners_suffice_lemma. Qed.
+Print Assumptions two_corners_suffice.
+
 (* hull branch *)
 Theorem ref_bbox_via_hull : forall H S, hull_ok H S -> forall T, affine T ->
   box_eq (bbox (map T H)) (bbox (map T S)).
@@ -61,80 +73,85 @@ Theorem hull_contract_gives_cover : forall H S, hull_ok H S -> hull_sem H S.
 Proof. exact hull_ok_sem. Qed.
 Print Assumptions hull_contract_gives_cover.
 
-(* cells, any depth, any valid cache (in particular the empty one) *)
-Theorem cell_bbox_exact : forall chull, (forall S, hull_sem (chull S) S) ->
-  forall U, family_ok U -> forall c, U c -> forall ch, cache_ok U ch ->
-  is_bbox (flatten c) (g_box (fst (cell_query chull false c ch))) /\
-  box_eq (g_box (fst (cell_query chull false c ch))) (bbox (flatten c)) /\
-  cache_ok U (snd (cell_query chull false c ch)).
-Proof. exact cell_bbox_exact_lemma. Qed.
-Print Assumptions cell_bbox_exact.
-
-Theorem cell_hull_exact : forall chull, (forall S, hull_sem (chull S) S) ->
-  forall U, family_ok U -> forall c, U c -> forall ch, cache_ok U ch ->
-  hull_sem (g_hull (fst (cell_query chull true c ch))) (flatten c) /\
-  cache_ok U (snd (cell_query chull true c ch)).
-Proof. exact cell_hull_exact_lemma. Qed.
-Print Assumptions cell_hull_exact.
-
-Theorem empty_cell_inverted : forall chull, (forall S, hull_sem (chull S) S) ->
-  forall U, family_ok U -> forall c, U c ->
-  (g_box (fst (cell_query chull false c [])) = Inverted <-> flatten c = []).
-Proof. exact empty_cell_inverted_lemma. Qed.
-Print Assumptions empty_cell_inverted.
-
-Theorem cache_transparent : forall chull, (forall S, hull_sem (chull S) S) ->
-  forall U, family_ok U -> forall qs, Forall (query_ok U) qs -> forall ch, cache_ok U ch ->
-  Forall2 (fun q a => answer_exact q a /\ answer_same a (fst (run1 chull q []))) qs (run chull qs ch).
-Proof. exact cache_transparent_lemma. Qed.
-Print Assumptions cache_transparent.
-
-(* where gdstk::convex_hull meets the contract ... *)
-Theorem convex_hull_w_sem : forall hull, (forall S, hull_ok (hull S) S) ->
-  forall S, (length S < 4)%nat \/ same_x S = true \/ collinearb S = false -> hull_sem (convex_hull_w hull S) S.
+(* gdstk::convex_hull (fewer than 4 points / qhull / the "least we can do" branch / the collinear fallback with
+   the two extreme input points) meets the contract on EVERY input, given qhull's own contract *)
+Theorem convex_hull_w_sem : forall hull, qhull_ok hull -> forall S, hull_sem (convex_hull_w hull S) S.
 Proof. exact convex_hull_w_sem_lemma. Qed.
 Print Assumptions convex_hull_w_sem.
 
-(* ... and where the current tree does not (known findings F10, F9) *)
-Theorem collinear_fallback_refuted_witness : exists S : list pt,
-  (forall hull, convex_hull_w hull S = [(qi 0, qi 6); (qi 4, qi 10)]) /\
-  (forall hull, ~ incl (convex_hull_w hull S) S) /\
-  (forall hull, ~ covers (convex_hull_w hull S) S) /\
-  (forall hull, ~ box_eq (bbox (map (xform pyth zero_pt) (convex_hull_w hull S))) (bbox (map (xform pyth zero_pt) S))).
-Proof. exact collinear_fallback_refuted. Qed.
-Print Assumptions collinear_fallback_refuted_witness.
+(* what family_ok asks of a reference repetition *)
+Theorem ref_wf_explicit : forall pl r, pl_rep pl = Some r -> r_explicit r = true ->
+  (ref_wf true pl <-> rep_ok r /\ (pl_quarter pl = true -> pl_ca pl * pl_sa pl == 0)).
+Proof. exact ref_wf_explicit_lemma. Qed.
+Print Assumptions ref_wf_explicit.
 
-Theorem reference_hull_explicit_rep_refuted_witness :
-  rep_ok f9_rep /\ ~ covers (exts f9_rep) (offs f9_rep) /\
-  ~ box_eq (g_box (fst (cell_query chull_mc false f9_top []))) (bbox (flatten f9_top)) /\
-  ~ covers (g_hull (fst (cell_query chull_mc true f9_mid []))) (flatten f9_mid) /\
-  In (qi 10, qi 10) (flatten f9_mid).
-Proof. exact reference_hull_explicit_rep_refuted. Qed.
-Print Assumptions reference_hull_explicit_rep_refuted_witness.
+Theorem ref_wf_other : forall pl r, pl_rep pl = Some r -> r_explicit r = false ->
+  (ref_wf true pl <-> rep_ok r /\ (incl (exts r) (offs r) /\ covers (exts r) (offs r)) /\
+                      (pl_quarter pl = true -> pl_ca pl * pl_sa pl == 0)).
+Proof. exact ref_wf_other_lemma. Qed.
+Print Assumptions ref_wf_other.
 
-(* the proposed repair of the fallback (lexicographic extremes of the input) meets the contract on every input,
-   hence the cell theorems hold for the repaired wrapper on all contents *)
-Theorem patched_wrapper_meets_contract : forall hull, (forall S, hull_ok (hull S) S) ->
-  forall S, hull_sem (convex_hull_w_fixed hull S) S.
-Proof. exact convex_hull_w_fixed_sem_lemma. Qed.
-Print Assumptions patched_wrapper_meets_contract.
+Theorem parallelogram_cover : forall (p0 v1 v2 : pt) (m n : Q) (E O : list pt),
+  (forall a b, (a == 0 \/ a == m) -> (b == 0 \/ b == n) ->
+     exists e, In e E /\ fst e == fst p0 + a * fst v1 + b * fst v2 /\ snd e == snd p0 + a * snd v1 + b * snd v2) ->
+  (forall o, In o O -> exists a b, 0 <= a /\ a <= m /\ 0 <= b /\ b <= n /\
+     fst o == fst p0 + a * fst v1 + b * fst v2 /\ snd o == snd p0 + a * snd v1 + b * snd v2) ->
+  covers E O.
+Proof. exact parallelogram_cover_lemma. Qed.
+Print Assumptions parallelogram_cover.
 
-Theorem cell_bbox_exact_patched : forall hull, (forall S, hull_ok (hull S) S) ->
+(* cells, any depth, any valid cache (in particular the empty one) *)
+Theorem cell_bbox_exact : forall hull, qhull_ok hull ->
   forall U, family_ok U -> forall c, U c -> forall ch, cache_ok U ch ->
-  box_eq (g_box (fst (cell_query (convex_hull_w_fixed hull) false c ch))) (bbox (flatten c)) /\
-  hull_sem (g_hull (fst (cell_query (convex_hull_w_fixed hull) true c ch))) (flatten c).
-Proof. exact cell_bbox_exact_patched_lemma. Qed.
-Print Assumptions cell_bbox_exact_patched.
+  is_bbox (flatten c) (g_box (fst (cell_query (convex_hull_w hull) false c ch))) /\
+  box_eq (g_box (fst (cell_query (convex_hull_w hull) false c ch))) (bbox (flatten c)) /\
+  cache_ok U (snd (cell_query (convex_hull_w hull) false c ch)).
+Proof. exact cell_bbox_exact_lemma. Qed.
+Print Assumptions cell_bbox_exact.
 
-(* two opposite corners would do in the quarter-turn branch (an equivalent variant of the code) *)
-Theorem two_corners_suffice : forall pl off S x0 y0 x1 y1, pl_ca pl * pl_sa pl == 0 ->
-  is_bbox S (Box x0 y0 x1 y1) ->
-  box_eq (bbox (map (xform pl off) [(x0, y0); (x1, y1)])) (bbox (map (xform pl off) (corners (Box x0 y0 x1 y1)))).
-Proof. exact two_corners_suffice_lemma. Qed.
-Print Assumptions two_corners_suffice.
+Theorem cell_hull_exact : forall hull, qhull_ok hull ->
+  forall U, family_ok U -> forall c, U c -> forall ch, cache_ok U ch ->
+  hull_sem (g_hull (fst (cell_query (convex_hull_w hull) true c ch))) (flatten c) /\
+  cache_ok U (snd (cell_query (convex_hull_w hull) true c ch)).
+Proof. exact cell_hull_exact_lemma. Qed.
+Print Assumptions cell_hull_exact.
 
-(* non-vacuity *)
-Theorem hypotheses_satisfiable : family_ok ex_U /\ (forall S, hull_sem ((fun S => S) S) S) /\
-  box_eq (g_box (fst (cell_query (fun S => S) false ex_top []))) (bbox (flatten ex_top)).
+Theorem empty_cell_inverted : forall hull, qhull_ok hull ->
+  forall U, family_ok U -> forall c, U c ->
+  (g_box (fst (cell_query (convex_hull_w hull) false c [])) = Inverted <-> flatten c = []).
+Proof. exact empty_cell_inverted_lemma. Qed.
+Print Assumptions empty_cell_inverted.
+
+Theorem cache_transparent : forall hull, qhull_ok hull ->
+  forall U, family_ok U -> forall qs, Forall (query_ok U) qs -> forall ch, cache_ok U ch ->
+  Forall2 (fun q a => answer_exact q a /\ answer_same a (fst (run1 (convex_hull_w hull) q [])))
+          qs (run (convex_hull_w hull) qs ch).
+Proof. exact cache_transparent_lemma. Qed.
+Print Assumptions cache_transparent.
+
+(* regression examples about the OLD functions (findings F10 and F9, fixed in /repo) *)
+Theorem collinear_fallback_old_refuted : exists S : list pt,
+  (forall hull, convex_hull_w_old hull S = [(qi 0, qi 6); (qi 4, qi 10)]) /\
+  (forall hull, ~ incl (convex_hull_w_old hull S) S) /\
+  (forall hull, ~ covers (convex_hull_w_old hull S) S) /\
+  (forall hull, ~ box_eq (bbox (map (xform pyth zero_pt) (convex_hull_w_old hull S))) (bbox (map (xform pyth zero_pt) S))) /\
+  (forall hull, convex_hull_w hull S = [(qi 0, qi 10); (qi 4, qi 6)]).
+Proof. exact collinear_fallback_old_refuted_example. Qed.
+Print Assumptions collinear_fallback_old_refuted.
+
+Theorem reference_hull_explicit_rep_old_refuted :
+  rep_ok f9_rep /\ ~ covers (exts f9_rep) (offs f9_rep) /\
+  ~ box_eq (g_box (fst (cell_query_old chull_mc false f9_top []))) (bbox (flatten f9_top)) /\
+  ~ covers (g_hull (fst (cell_query_old chull_mc true f9_mid []))) (flatten f9_mid) /\
+  In (qi 10, qi 10) (flatten f9_mid) /\
+  box_eq (g_box (fst (cell_query chull_mc false f9_top []))) (bbox (flatten f9_top)) /\
+  In (qi 10, qi 10) (g_hull (fst (cell_query chull_mc true f9_mid []))).
+Proof. exact reference_hull_explicit_rep_old_refuted_example. Qed.
+Print Assumptions reference_hull_explicit_rep_old_refuted.
+
+(* non-vacuity: a family with a quarter-turn lattice reference, a rotated magnified reflected reference and an
+   Explicit repetition whose extrema do not cover its offsets; the identity meets qhull_ok *)
+Theorem hypotheses_satisfiable : family_ok ex_U /\ qhull_ok (fun S => S) /\
+  box_eq (g_box (fst (cell_query (convex_hull_w (fun S => S)) false ex_top []))) (bbox (flatten ex_top)).
 Proof. exact family_ok_example. Qed.
 Print Assumptions hypotheses_satisfiable.
